@@ -1,6 +1,7 @@
 /- line-protocol handler for model "deflate" (C19): same ops as harness/inproc/h_deflate.c -/
 import LtVerif.Model.Deflate
 import LtVerif.Model.DeflateStream
+import LtVerif.Model.DeflateScan
 namespace Driver
 open LtVerif LtVerif.B LtVerif.Deflate
 
@@ -232,6 +233,14 @@ def deflateLine : List String → String
       | some c => Dfl.labelStr c
       | none => "none"
     | _, _ => "bad-op"
+  | ["sc", h] =>
+    -- the C scan loop (Model/DeflateScan.lean): accept_encoding bits gzip / x-gzip / deflate
+    match ofHex h with
+    | some hdr =>
+      let a := Scan.scanC hdr
+      let b := fun (x : Bool) => if x then "1" else "0"
+      b a.gzip ++ b a.xgzip ++ b a.deflate
+    | none => "bad-op"
   | ["rs", al, mi, mn, mx, cd, me, ae, inm, st, fl, ct, et, va, cc, bk, _gen, ln] =>
     Dfl.rsLine al mi mn mx cd me ae inm st fl ct et va cc bk ln
   | ["name", d, pa, e, lab, pid] =>
